@@ -23,6 +23,7 @@ let vs_sexp v = L (List.map (fun (r, a) -> L [a_z r; si_sexp a]) v)
 let handle = function
   | L [A "add"; a; b] -> res_sexp si_sexp (si_add (si_of a) (si_of b))
   | L [A "sub"; a; b] -> res_sexp si_sexp (si_sub (si_of a) (si_of b))
+  | L [A "union"; a; b] -> res_sexp si_sexp (si_union (si_of a) (si_of b))
   | L [A "zext"; a; n] -> L [A "ok"; si_sexp (si_zext (si_of a) (z_a n))]
   | L [A "neg"; a] -> res_sexp si_sexp (si_neg (si_of a))
   | L [A "dsis_add"; L s; L t] -> res_sexp (fun r -> L (List.map si_sexp r)) (dsis_add (List.map si_of s) (List.map si_of t))
